@@ -35,7 +35,7 @@ def run(tier, seed, work, replay):
             "C17", tier, seed, work, "KMWeb", ["MC_KMWeb_C17%s.cfg" % suffix], "Gen_KMWeb", "Gen_KMWeb_C17%s.cfg" % suffix,
             "Trace_KMWeb", "Trace_KMWeb.cfg",
             lambda ev: {"handler": ev["case"]["handler"], "why": why(ev["out"]["loc"])},
-            lambda e: (e["case"]["handler"], tuple(e["case"]["dest"]), e["out"]["profile"]))
+            lambda e: (e["case"]["handler"], tuple(e["case"]["dest"]), e["out"]["profile"]), chunk=25000)
     finally:
         E.tlc_export = orig
     res.cov["rule"] = ("all destination strings over 15 character classes up to length %d and over {slash, backslash, dot, host, ?, #} up "
